@@ -255,6 +255,42 @@ func c02RunHistory(j c02Job, gs []*targetgroup.Group) (ref, got []pipe.One, gen 
 	return ref, got, gen, err
 }
 
+// c02RunReloadSameDiscovery: ONE discovery object sees a round under an older version of the job (other
+// scheme, path and params; the same relabel rules), the configuration is reloaded to the real job, and the
+// service discovery delivers the same, unchanged groups again.
+func c02RunReloadSameDiscovery(j c02Job, gs []*targetgroup.Group) (ref, got []pipe.One, gen []byte, err error) {
+	old := j
+	old.path = "/before-reload"
+	old.params = (j.params + 1) % 3
+	if j.scheme == "https" {
+		old.scheme = ""
+	} else {
+		old.scheme = "https"
+	}
+	infoOld, err := pipe.LoadInfo(old.text())
+	if err != nil {
+		return nil, nil, nil, fmt.Errorf("config rejected: %v", err)
+	}
+	info, err := pipe.LoadInfo(j.text())
+	if err != nil {
+		return nil, nil, nil, fmt.Errorf("config rejected: %v", err)
+	}
+	refInfo, _ := pipe.LoadInfo(j.text())
+	ref, _ = pipe.Reference(refInfo.Config.ScrapeConfigs[0], gs)
+	round := map[string][]*targetgroup.Group{"j1": gs}
+	_, d := pipe.Discovered(infoOld, []map[string][]*targetgroup.Group{round})
+	if err := d.ApplyConfig(info); err != nil {
+		return ref, nil, nil, fmt.Errorf("reload: %v", err)
+	}
+	active := pipe.Rediscover(d, round)
+	gen, err = pipe.Inject(refInfo, pipe.Ship(active), sidecar.InjectConfigOptions{ProxyURL: "http://127.0.0.1:8008"})
+	if err != nil {
+		return ref, nil, nil, fmt.Errorf("inject: %v", err)
+	}
+	got, err = pipe.Sharded(refInfo, "j1", gen)
+	return ref, got, gen, err
+}
+
 func c02Diff(ref, got []pipe.One) (string, string) {
 	rm, gm := map[string]int{}, map[string]int{}
 	for _, o := range ref {
@@ -346,6 +382,17 @@ func init() {
 					} else if ek, ed := c02Diff(eref, egot); ek != "" {
 						ref, got, gen = eref, egot, egen
 						r.Violate("C02:"+ek+":after-exploration", "equivalence", fmt.Sprintf("%s / %s, in the round after the explorer probed the targets: %s", j.name(), g.name, ed), idx, rp("equivalence", ed))
+					}
+				}
+				if kind == "" && !strings.Contains(g.name, "invalid-char") {
+					// one discovery object across a reload that changed the job's scheme, path and params
+					dref, dgot, dgen, derr := c02RunReloadSameDiscovery(j, g.groups)
+					r.Transitions++
+					if derr != nil {
+						r.Violate("C02:pipeline-error:same-groups-after-reload", "pipeline", fmt.Sprintf("%s / %s after reload: %v", j.name(), g.name, derr), idx, rp("pipeline", derr.Error()))
+					} else if dk, dd := c02Diff(dref, dgot); dk != "" {
+						ref, got, gen = dref, dgot, dgen
+						r.Violate("C02:"+dk+":same-groups-after-reload", "equivalence", fmt.Sprintf("%s / %s, the same groups delivered again after a reload that changed scheme, path and params of the job: %s", j.name(), g.name, dd), idx, rp("equivalence", dd))
 					}
 				}
 				if kind == "" && j.params > 0 && !strings.Contains(g.name, "invalid-char") {
